@@ -98,6 +98,8 @@ pub const VARIANT: &str = if cfg!(feature = "inproc") {
     "inproc"
 } else if cfg!(feature = "memfd") {
     "memfd"
+} else if cfg!(all(feature = "asy", feature = "hook")) {
+    "asyhook"
 } else if cfg!(feature = "asy") {
     "asy"
 } else if cfg!(feature = "asan") {
